@@ -41,7 +41,8 @@ RULE = ('Units level: all ordered pairs of the named Units constants (quick) and
         'classes that disallow units; into_units/from_units/set_units/without_units with derivatives; histories: object '
         'with derivatives, cached views touched (.wod, antimask, product, norm), units changed by set_units / '
         'without_units / into_units / from_units / on a clone() or copy(), then the operation catalogue on the object '
-        'and on its .wod. A case is '
+        'and on its .wod; n-ary combiners (from_scalars of every class, stack) with 2-5 components, exhaustive over '
+        '{None, KM, M, S}^n for n <= 4. A case is '
         'non-trivial when at least one operand has units other than None/UNITLESS; distinct = distinct request line.')
 ASSUMPTIONS = ['numerators and denominators are positive integers (the constructor is not modelled for zero or negative '
                'coefficients); float triples are outside the exact model (answer "inexact")',
@@ -58,13 +59,23 @@ TRUSTED_EXTRA = ['math.isqrt (CPython) returns the floor of the exact square roo
 
 
 # ------------------------------------------------------------------ implementation side
+_LAST = [None, None]
+
+
+def _run_once(case):
+    """check.py calls impl(case) and then oracle(case) on the same object: run the real code once for both"""
+    if _LAST[0] is not case:
+        _LAST[0], _LAST[1] = case, run(case)
+    return _LAST[1]
+
+
 def impl(case):
-    obs, _ = run(case)
+    obs, _ = _run_once(case)
     return obs
 
 
 def oracle(case):
-    obs, info = run(case)
+    obs, info = _run_once(case)
     return judge(case, obs, info)
 
 
@@ -109,7 +120,7 @@ def nontrivial_spec(*specs):
 def mk(case):
     case['req'] = request(case)
     case['kind'] = kind_of(case)
-    case['nontrivial'] = nontrivial_spec(*[case.get(k) for k in ('a', 'b', 'c', 'u', 'cur', 'new')])
+    case['nontrivial'] = nontrivial_spec(*([case.get(k) for k in ('a', 'b', 'c', 'u', 'cur', 'new')] + list(case.get('us', []))))
     return case
 
 def gen_cases(rng, tier):
@@ -340,6 +351,25 @@ def gen_cases(rng, tier):
         db = dchoice(b) if spec['arity'] == 2 else '-'
         add(op='drule', oname=oname, cls=cls, shape=shape, a=a, b=b, da=da, db=db, t=t,
             p=rng.choice([-6, -4, -3, -2, -1, 0, 1, 2, 3, 4, 5, 6, 8, 10, 'other']) if 'powers' in spec else None)
+    # ---- n-ary combiners: from_scalars of every class and stack with 2..5 components; components without units at
+    #      EVERY position (first, middle, last), conflicts between ANY pair (first/later, later/later):
+    #      exhaustive over {None, KM, M, S}^n for n <= 4 (n = 3 for the fixed-arity builders), random beyond
+    alphabet = [None, 'KM', 'M', 'S']
+    for fn in NARY:
+        arities = NARY_ARITY.get(fn, [2, 3, 4])
+        for n in arities:
+            for us in itertools.product(alphabet, repeat=n):
+                if n == 4 and not thorough and fn not in ('Vector.from_scalars', 'Matrix.from_scalars', 'stack:Scalar') \
+                        and rng.random() < 0.6:
+                    continue
+                add(op='nary', fn=fn, us=list(us), shape=rng.choice([[], [2]]),
+                    plain=[rng.random() < 0.5 for _ in us])
+        for _ in range(120 if thorough else 25):
+            n = rng.choice(arities) if fn in NARY_ARITY else rng.randint(3, 5)
+            base = gen_unit(rng)
+            pool_n = [None, None, base, ['*', base, ['/', 'M', 'KM']], ['/', ['*', base, 'KM'], 'M'], gen_unit(rng), 'DEG']
+            add(op='nary', fn=fn, us=[rng.choice(pool_n) for _ in range(n)], shape=rng.choice([[], [2]]),
+                plain=[rng.random() < 0.5 for _ in range(n)])
     # classes that disallow units
     for cls in NO_UNITS:
         for u in [None, 'UNITLESS', 'KM', 'DEG', ['/', 'KM', 'S']]:
